@@ -83,7 +83,7 @@ def main(ctx):
             if key not in seen:
                 seen.add(key)
                 states.append(j["S"])
-    if not ops or len(states) != res.distinct:
+    if not ops or len(states) < res.distinct:          # (states that differ only in what the VIEW hides are emitted too)
         ctx.machinery.append("emission incomplete: %d ops, %d/%d states" % (len(ops), len(states), res.distinct))
         return
     if not ctx.quick and len(states) > 1500:
